@@ -25,6 +25,10 @@ SPECIAL = [
      '    for (a, t) in vs.iter() { if format!("{:?}", a) != format!("{:?}", t) || format!("{:#?}", a.clone()) != format!("{:#?}", t.clone()) { out.push(format!("Debug/Clone differs: {:?} vs {:?}", a, t)); } }\n'
      '    for (a, t) in vs.iter() { for (b, u) in vs.iter() { if a.cmp(b) != t.cmp(u) || (a == b) != (t == u) || a.partial_cmp(b) != t.partial_cmp(u) { out.push("comparison differs".to_string()); } } }\n'
      '    if format!("{:?}", X::<F8, F8>::default()) != format!("{:?}", twin::X::<F8, F8>::default()) { out.push("Default differs".to_string()); }\n    out }\n'),
+    ("non_reflexive_alias", '#[derive_ex::derive_ex(Clone, Debug, PartialEq, PartialOrd)]\npub enum X { A(f32, u8), B { p: crate::support::P }, C }\n\npub mod twin { #[derive(Clone, Debug, PartialEq, PartialOrd)] pub enum X { A(f32, u8), B { p: crate::support::P }, C } }\n'
+     'pub fn ncheck() -> Vec<String> { let mut out = Vec::new(); let vs = vec![(X::A(f32::NAN, 1), twin::X::A(f32::NAN, 1)), (X::A(1.5, 1), twin::X::A(1.5, 1)), (X::B { p: P(255) }, twin::X::B { p: P(255) }), (X::B { p: P(3) }, twin::X::B { p: P(3) }), (X::C, twin::X::C)];\n'
+     '    for (a, t) in vs.iter() { if (a == a) != (t == t) || a.partial_cmp(a) != t.partial_cmp(t) { out.push(format!("x == x / x.partial_cmp(x) on the same object differs from the standard derive for {:?}", a)); } }\n'
+     '    for (a, t) in vs.iter() { for (b, u) in vs.iter() { if (a == b) != (t == u) || a.partial_cmp(b) != t.partial_cmp(u) || (a.clone() == *b) != (t.clone() == *u) { out.push(format!("comparison differs from the standard derive for {:?} vs {:?}", a, b)); } } }\n    out }\n'),
     ("raw_idents", '#[derive_ex::derive_ex(Clone, Debug, Default, PartialEq, Eq, PartialOrd, Ord, Hash)]\npub struct r#struct { pub r#type: u8, pub r#fn: bool }\n\npub mod twin { #[derive(Clone, Debug, Default, PartialEq, Eq, PartialOrd, Ord, Hash)] pub struct r#struct { pub r#type: u8, pub r#fn: bool } }\n'
      'pub fn ncheck() -> Vec<String> { let mut out = Vec::new(); let a = r#struct { r#type: 1, r#fn: true }; let ta = twin::r#struct { r#type: 1, r#fn: true };\n'
      '    for (d, t) in [(format!("{:?}", a), format!("{:?}", ta)), (format!("{:#?}", a), format!("{:#?}", ta))] { if d != t { out.push(format!("Debug differs for raw identifiers: {:?} vs {:?}", d, t)); } }\n    out }\n'),
